@@ -132,10 +132,36 @@ NA = {
 PENDING = "check not built yet in this round (planned, see DESIGN.md section 11)"
 
 
+MC = {
+    "C01": ["OkHasBody", "StreamOwnerIsReserver", "NoGhostInvoke"], "C02": ["StreamOwnerIsReserver", "OkHasBody"],
+    "C03": ["RuntimeAfterRegistrations", "NoEventBeforeAllNext"], "C04": ["DoneOnlyAfterAll"],
+    "C05": ["NoGhostInvoke", "NoCrash"], "C07": ["NoCrash"], "C08": ["ResetIsFresh"], "C10": ["NoCrash", "StreamOwnerIsReserver"],
+}
+FORCED = {"C02": "stale-in-flight", "C03": "clear-vs-invoke", "C05": "ghost-invoke, clear-vs-invoke", "C08": "watch-late-cancel, clear-vs-invoke"}
+RAPID = ["C01", "C02", "C03", "C04", "C05", "C06", "C07", "C08", "C09", "C10", "C12", "C13", "C14", "C15", "C18"]
+
+
 def main():
     checks = []
     for pid in sorted(CHECKS):
-        c = CHECKS[pid]
+        c = dict(CHECKS[pid])
+        c["ref"] = "DESIGN.md section 5 (row %s), sections 2-3" % pid
+        if pid in MC:
+            c["text"] += (" In addition TLC model-checks the composite (spec/MC_Rapid.tla: Rapid closed with an environment of runtime, "
+                          "extensions, callers, process exits, timer expiry and API misuse) for the invariants %s over every interleaving "
+                          "within small bounds." % ", ".join(MC[pid]))
+            c["technique"] = "TLC model checking of the composite TLA+ spec (MC_Rapid invariants); " + c["technique"]
+            c["engine"] = "E1-tlc + " + c["engine"]
+        if pid in RAPID:
+            c["text"] += (" The property predicates of spec/Rapid.tla (PropHolds) are evaluated in every state of the behaviour that "
+                          "explains a recorded trace; a failing predicate is reported even when the trace is explainable.")
+        if pid in ("C01", "C10"):
+            c["text"] += (" The HTTP front end (cmd/aws-lambda-rie InvokeHandler, compiled unchanged into the harness through a build "
+                          "overlay) is specified in spec/FrontEnd.tla (once-only initialisation under a mutex, status mapping), model-checked, "
+                          "and scenario families entering through it are validated against spec/Trace_FrontEnd.tla in addition.")
+        if pid in FORCED:
+            c["text"] += (" Forced schedules (%s) hold goroutines of the real emulator at pause points compiled in with -tags verif; "
+                          "they replay TLC counterexamples of the model of the code as found." % FORCED[pid])
         checks.append({
             "property_id": pid,
             "quick_cmd": "./check %s --tier quick" % pid,
